@@ -51,7 +51,7 @@ def main():
         stats['executions'] += 1
         f.write(json.dumps({'id': shard + n * nshards,
                             'cls': 'pool%s%s' % (pool_size or 'inf', '-reuse' if idle else ''),
-                            'cfg': {'lmtp': lmtp, 'pipelining': pipe, 'pool_size': pool_size or 0, 'idle': idle or 0, 'maxconn': max(8, r.nconn),
+                            'cfg': {'lmtp': lmtp, 'pipelining': pipe, 'kind': 'smtp', 'pool_size': pool_size or 0, 'idle': idle or 0, 'maxconn': max(8, r.nconn),
                                     'sched': sched}, 'ev': ev}, separators=(',', ':')) + '\n')
         n += 1
     # ---- directed: a transaction refused at one stage, then further messages on the same (reused) connection
@@ -73,9 +73,33 @@ def main():
                             ev = r.run_to_end()
                             stats['executions'] += 1
                             f.write(json.dumps({'id': shard + n * nshards, 'cls': 'reuse-after-refusal',
-                                                'cfg': {'lmtp': lmtp, 'pipelining': pipe, 'pool_size': 1, 'idle': 5, 'maxconn': max(8, r.nconn),
+                                                'cfg': {'lmtp': lmtp, 'pipelining': pipe, 'kind': 'smtp', 'pool_size': 1, 'idle': 5, 'maxconn': max(8, r.nconn),
                                                         'sched': 'cscsc'}, 'ev': ev}, separators=(',', ':')) + '\n')
                             n += 1
+    # ---- the HTTP relay's pool: real HttpRelay against a loopback peer, several attempts, keep-alive on and off
+    from harness import hdrv
+    HACTS = ['ok200', 'ok200body', 'ok200chunked', 'hdr450body', 'ok204plain', 'hdr550', 'hdr450', 'plain500', 'plain404', 'close', 'garbage', 'stall']
+    for it in range(6 if quick else 150):
+        pool_size = rnd.choice([1, 1, 2, None])
+        idle = rnd.choice([None, 5, 5])
+        nreq = rnd.randint(2, 4)
+        acts = [rnd.choice(HACTS) if rnd.random() < 0.5 else rnd.choice(['ok200', 'ok200body']) for _ in range(nreq)] + ['ok200']
+        r = hdrv.HttpRun(acts, pool_size=pool_size, idle_timeout=idle, relay_side_conns=True)
+        sched = rnd.choice(['ccc', 'cscsc', 'ccsc', 'cscc', 'cccc', 'cscscsc'])[:2 * nreq]
+        req = 0
+        for ch in sched:
+            if ch == 'c' and req < nreq:
+                req += 1
+                r.attempt(req, rnd.randint(1, 2))
+            elif ch == 's':
+                r.pump(0.15)
+        ev = r.run_to_end()
+        # connections still held by idle clients are closed when the pool is torn down: not part of the run
+        stats['executions'] += 1
+        f.write(json.dumps({'id': shard + n * nshards, 'cls': 'http-pool%s%s' % (pool_size or 'inf', '-reuse' if idle else ''),
+                            'cfg': {'lmtp': False, 'pipelining': False, 'kind': 'http', 'pool_size': pool_size or 0, 'idle': idle or 0,
+                                    'maxconn': max(8, r.nconn_relay + 1, r.open + 1), 'sched': sched}, 'ev': ev}, separators=(',', ':')) + '\n')
+        n += 1
     f.write(json.dumps({'summary': stats}) + '\n')
     f.close()
 
